@@ -166,6 +166,33 @@ TextNum(s) ==
   IF s[1] = Minus THEN [s |-> 1, m |-> BigFromDecNat(Tail(s), 1, <<>>)]
   ELSE [s |-> 0, m |-> BigFromDecNat(s, 1, <<>>)]
 
+(* ---- decimal text under a numpunct facet (the *_locale overloads): digits are grouped from the
+   right in groups of grp digits separated by sep (grouping "\3" = grp 3; grp = 0: no grouping);
+   integers have no decimal point, so a facet that only changes the decimal point changes nothing *)
+RECURSIVE GroupDigits(_, _, _)
+GroupDigits(ds, sep, grp) ==
+  IF grp = 0 \/ Len(ds) <= grp THEN ds
+  ELSE GroupDigits(SubSeq(ds, 1, Len(ds) - grp), sep, grp) \o <<sep>> \o SubSeq(ds, Len(ds) - grp + 1, Len(ds))
+
+NumTextLoc(x, p) ==
+  (IF x.s = 1 THEN <<Minus>> ELSE <<>>)
+  \o GroupDigits(IF x.m = <<>> THEN <<Zero>> ELSE BigToDecNat(x.m), p.sep, p.grp)
+
+\* reading with the same facet: separators are accepted exactly where the grouping puts them
+Ungroup(s, p) == IF p.grp = 0 THEN s ELSE SelectSeq(s, LAMBDA c : c # p.sep)
+TextNumLoc(s, p) ==
+  LET u == Ungroup(s, p)
+  IN IF IsCanonicalDec(u) /\ NumTextLoc(TextNum(u), p) = s THEN [ok |-> TRUE, x |-> TextNum(u)]
+     ELSE [ok |-> FALSE, x |-> [s |-> 0, m |-> <<>>]]
+
+\* the facets of harness/c15_codec.cpp (sep as a code point)
+Puncts ==
+  [classic |-> [sep |-> 0, grp |-> 0],
+   grouped |-> [sep |-> 39, grp |-> 3],          \* 1'234'567
+   decimal_comma |-> [sep |-> 0, grp |-> 0],     \* only the decimal point differs
+   german |-> [sep |-> 46, grp |-> 3]]           \* 1.234.567 (decimal point ',')
+PunctIds == DOMAIN Puncts
+
 NumOfInt(n) == IF n < 0 THEN [s |-> 1, m |-> Strip(Bytes(-n, 4))] ELSE [s |-> 0, m |-> Strip(Bytes(n, 4))]
 
 \* does the number fit an integer type of `bits` bits (signed: two's complement)?
